@@ -153,6 +153,10 @@ ARITH = {
 CMP = {'Lt': 'lt', 'LtE': 'le', 'Gt': 'gt', 'GtE': 'ge', 'Eq': 'eq', 'NotEq': 'ne'}
 
 
+MA_ELEMENTWISE = {'sin', 'cos', 'tan', 'arcsin', 'arccos', 'arctan', 'arctan2', 'sinh', 'cosh', 'tanh', 'exp', 'log', 'log10', 'log2', 'sqrt', 'hypot', 'radians',
+                  'degrees', 'deg2rad', 'rad2deg', 'floor', 'ceil', 'rint', 'absolute', 'fabs', 'negative', 'power', 'square', 'sign'}
+
+
 class Models:
     def __init__(self):
         self.ext_call = {}
@@ -210,6 +214,8 @@ class Models:
     def call(self, interp, fn, args, kwargs, node, frame=None):
         if isinstance(fn, ExtRef):
             h = self.ext_call.get(fn.path)
+            if h is None and fn.path.startswith('numpy.ma.') and ('numpy.' + fn.path[len('numpy.ma.'):]) in self.ext_call and fn.path.rsplit('.', 1)[1] in MA_ELEMENTWISE:
+                h = self.ext_call['numpy.' + fn.path[len('numpy.ma.'):]]      # np.ma.sin etc.: the same element-wise function, masks are carried by the elements
             if h is None:
                 from . import bridge
                 try:
